@@ -88,7 +88,23 @@ def showRender (r : Except RErr Bytes) : String :=
   | .ok b => "ok " ++ toHexP b
   | .error e => "err " ++ e.toString
 
+/-- direct `Renderer` use: every add in order, continuing after `TooBig` exactly like a caller that catches it -/
+def stepsGo (s : RState) : List Item → List String → RState × List String
+  | [], acc => (s, acc)
+  | it :: rest, acc =>
+    match s.addItem it with
+    | .ok s' => stepsGo s' rest (acc ++ [s!"ok:{s'.out.length}:{s'.tbl.length}"])
+    | .tooBig s' => stepsGo s' rest (acc ++ [s!"big:{s'.out.length}:{s'.tbl.length}"])
+    | .err e => (s, acc ++ ["err:" ++ e.toString])
+
 def handleC03 : List String → Option String
+  | "c03.steps" :: ms :: rest => do
+    let m ← parseMsgTokens rest
+    let ms ← ms.toNat?
+    let (s, tr) := stepsGo (RState.init m.id m.flags ms m.origin) m.items []
+    let s := s.writeHeader
+    some ("ok " ++ " ".intercalate tr ++ s!" out={toHexP s.out} tbl="
+      ++ ";".intercalate (s.tbl.map fun p => showName p.1 ++ "@" ++ toString p.2))
   | "c03.render" :: ms :: pt :: rest => do
     let m ← parseMsgTokens rest
     some (showRender (m.toWire (← ms.toNat?) (← parseBool pt)))
